@@ -130,18 +130,11 @@ Proof.
   destruct (NO _ _ Hparw) as (pn & Hpn & _). congruence.
 Qed.
 
-Theorem frame_transfer w w' : TreeInv w -> Core w' -> Frame w w' -> FilesInv T w -> FilesInv T w'.
+(* one model at a time *)
+Lemma frame_transfer_model w w' x x' : TreeInv w -> Core w' -> Frame w w' ->
+  In x (w_models w) -> In x' (w_models w') -> mview x = mview x' -> FilesInvM T w x -> FilesInvM T w' x'.
 Proof.
-  intros TI C' F FI x' Hx'. destruct (fr_models _ _ F _ Hx') as [(x & Hx & Hv)|(Hnf & Hnr)].
-  2:{ pose proof (frame_new_root _ _ _ TI C' F Hnr) as Hnew.
-      assert (forall i n', Reach w' (m_root x') i -> w_nodes w' i = Some n' -> n_files n' = []) as He
-        by (intros i n' Hr Hn'; apply (fr_new _ _ F i n'); auto).
-      constructor.
-      - intros i n' Hr Hn'. rewrite (He _ _ Hr Hn'). intros y [].
-      - intros i n' p Hr Hn' Hne. exfalso. apply Hne. eauto.
-      - intros i n' p pn' Hr Hn' Hne. exfalso. apply Hne. eauto.
-      - intros Hne. congruence. }
-  pose proof (FI x Hx) as FIx. pose proof (frame_carried _ _ _ _ TI C' F FIx Hx Hx' Hv) as CA.
+  intros TI C' F Hx Hx' Hv FIx. pose proof (frame_carried _ _ _ _ TI C' F FIx Hx Hx' Hv) as CA.
   destruct TI as (C & NO & _). injection Hv as Hroot Hfiles. constructor.
   - intros i n' Hr Hn'. rewrite <- Hfiles.
     destruct (CA i Hr) as (_ & [(n & n'' & Hn & Hn'' & Hrw & Fs & _)|(n'' & _ & Hn'' & Fe)]); assert (n'' = n') by congruence; subst n''.
@@ -163,6 +156,26 @@ Proof.
     + exfalso. assert (par w i p) as Hparw by (exists n; split; auto; congruence).
       destruct (NO _ _ Hparw) as (? & ? & _). congruence.
   - intros Hne i Hr. destruct (CA i Hr) as (Hd & _). apply Hd. congruence.
+Qed.
+
+Lemma frame_transfer_new w w' x' : TreeInv w -> Core w' -> Frame w w' ->
+  m_files x' = [] -> w_nodes w (m_root x') = None -> FilesInvM T w' x'.
+Proof.
+  intros TI C' F Hnf Hnr. pose proof (frame_new_root _ _ _ TI C' F Hnr) as Hnew.
+  assert (forall i n', Reach w' (m_root x') i -> w_nodes w' i = Some n' -> n_files n' = []) as He
+    by (intros i n' Hr Hn'; apply (fr_new _ _ F i n'); auto).
+  constructor.
+  - intros i n' Hr Hn'. rewrite (He _ _ Hr Hn'). intros y [].
+  - intros i n' p Hr Hn' Hne. exfalso. apply Hne. eauto.
+  - intros i n' p pn' Hr Hn' Hne. exfalso. apply Hne. eauto.
+  - intros Hne. congruence.
+Qed.
+
+Theorem frame_transfer w w' : TreeInv w -> Core w' -> Frame w w' -> FilesInv T w -> FilesInv T w'.
+Proof.
+  intros TI C' F FI x' Hx'. destruct (fr_models _ _ F _ Hx') as [(x & Hx & Hv)|(Hnf & Hnr)].
+  - eapply frame_transfer_model; eauto.
+  - eapply frame_transfer_new; eauto.
 Qed.
 
 End Transfer.
